@@ -6,7 +6,7 @@
 (* Channel!Next that produces exactly the observed projection.  Several    *)
 (* executions are concatenated with "reset" events.                        *)
 (***************************************************************************)
-EXTENDS Channel, Json, IOUtils
+EXTENDS ChannelOwn, Json, IOUtils
 
 Trace == ndJsonDeserialize(IOEnv.TRACE_FILE)
 
